@@ -129,6 +129,22 @@ def phi_def_ctrl(ev, phi):
     return [fr.ctrl_of_block(bi) for (_, bi), fr in ev.phi_sites.get(phi[1], {}).items()]
 
 
+def _direction(it):
+    """False: streamed front to back, True: back to front (an odd number of `rev` layers), None: a zip whose sides disagree"""
+    tag = it[0] if isinstance(it, tuple) and it else None
+    if tag == "rev":
+        p = _direction(it[1])
+        return None if p is None else (not p)
+    if tag in ("take", "skip", "map", "enumerate", "step_by", "chunks", "gen", "windows") and len(it) > 1:
+        return _direction(it[1])
+    if tag == "rng" and len(it) == 3:
+        return _direction(it[2])
+    if tag == "zip":
+        a, b = _direction(it[1]), _direction(it[2])
+        return a if a == b else None
+    return False
+
+
 class Frame:
     def __init__(self, ev, body, env, chain):
         self.ev = ev
@@ -467,6 +483,12 @@ class Frame:
             return self.elem(it[2], stamp=it[1])
         st = (lambda x: ("rng", stamp, x)) if stamp is not None else (lambda x: x)
         if tag == "zip":
+            pa, pb = _direction(it[1]), _direction(it[2])
+            if pa != pb or pa is None:
+                # a.zip(b.rev()): the two sides run in different directions, so "the element of this iteration" of the reversed
+                # side is NOT the element at the other side's position — it stays opaque (rules fail closed on it)
+                side = lambda x, p_: self.elem(x, stamp) if p_ is False else ("elem", st(("opposite_direction", x)))
+                return ("tuple", (side(it[1], pa), side(it[2], pb)))
             return ("tuple", (self.elem(it[1], stamp), self.elem(it[2], stamp)))
         if tag == "enumerate":
             return ("tuple", (("index", st(it[1])), self.elem(it[1], stamp)))
